@@ -274,3 +274,81 @@ func ZZ_C13_FailedLoadCostFn() {
 	e, ok := s.shards[zzIndex(s, 1)].hashmap[1]
 	vfAssert("loaded-value-weighed-by-the-cost-function", ok && e.weight.Load() == 2 && e.policyWeight == 2)
 }
+
+// ZZ_C15_FailedSecondaryDelete: hybrid Delete while the secondary store's Delete fails or succeeds by choice. The
+// error is reported to the caller; whatever the secondary store answered, the memory tier stays consistent: an entry
+// that has left the map has left the policy too (resident cost = policy total = size views, nothing tracked that is
+// not resident) and its removal is notified exactly once; a Delete that reported success leaves the key in no tier.
+func ZZ_C15_FailedSecondaryDelete() {
+	h := zzHybNew(2, false)
+	s := h.s
+	s.Set(1, 101, 1, 0)
+	s.Set(2, 201, 1, 0)
+	h.settle()
+	h.sec.failDelete = true
+	err := s.DeleteWithSecondary(1)
+	h.settle()
+	vfReach("delete-returned")
+	_, present := s.shards[zzIndex(s, 1)].hashmap[1]
+	n := 0
+	for _, x := range h.notes {
+		if x.key == 1 {
+			n++
+			vfAssert("failed-secondary-delete:reported-as-removed", x.reason == REMOVED && x.val == 101)
+		}
+	}
+	vfAssert("failed-secondary-delete:left-the-map-iff-notified-once", (present && n == 0) || (!present && n == 1))
+	if err == nil {
+		_, inSec := h.sec.m[1]
+		vfAssert("successful-delete-leaves-no-tier", !present && !inSec)
+	}
+	zzAccounted(s, "failed-secondary-delete")
+	zzViews(s, "failed-secondary-delete")
+	// a retry after the secondary store has recovered completes the Delete
+	h.sec.failDelete = false
+	err2 := s.DeleteWithSecondary(1)
+	h.settle()
+	_, hit, _ := s.GetWithSecodary(1)
+	vfAssert("retry-completes-the-delete", err2 == nil && !hit)
+	zzAccounted(s, "after-retry")
+}
+
+// ZZ_C06_OversizePromotion: the secondary tier holds a copy whose recorded cost (symbolic) may exceed MaxSize (the
+// secondary store can outlive a cache that is rebuilt with a smaller size). A hybrid Get (plain or loading) hands the
+// value to the caller; a value whose cost exceeds MaxSize is never resident by that path either, displaces nobody and
+// is never notified; the memory tier stays within MaxSize and consistent.
+func ZZ_C06_OversizePromotion() {
+	h := zzHybNew(2, false)
+	s := h.s
+	s.Set(1, 101, 1, 0)
+	s.Set(2, 201, 1, 0)
+	h.settle()
+	c := vfI64("secondaryCost")
+	vfAssume(c >= 1)
+	vfAssume(c <= 6)
+	h.sec.m[9] = zzSecEnt{909, c, 0}
+	vfNote("oversize", vfIte64(c > 2, 1, 0))
+	if vfConfig("LOADING", 0) == 1 {
+		ls := NewLoadingStore(s)
+		ls.Loader(func(ctx context.Context, key uint64) (Loaded[uint64], error) {
+			return Loaded[uint64]{Value: 1000 + key, Cost: 1}, nil
+		})
+		v, err := ls.Get(context.Background(), 9)
+		vfAssert("promotion:value-returned", err == nil && v == 909)
+	} else {
+		v, hit, err := s.GetWithSecodary(9)
+		vfAssert("promotion:value-returned", err == nil && hit && v == 909)
+	}
+	h.settle()
+	vfReach("promoted-or-not")
+	_, present := s.shards[zzIndex(s, 9)].hashmap[9]
+	vfAssert("promotion:oversize-value-not-resident", vfImplies(c > 2, !present))
+	if c > 2 {
+		_, p1 := s.shards[zzIndex(s, 1)].hashmap[1]
+		_, p2 := s.shards[zzIndex(s, 2)].hashmap[2]
+		vfAssert("promotion:oversize-value-displaces-nobody", p1 && p2)
+		vfAssert("promotion:oversize-value-never-notified", len(h.notes) == 0)
+	}
+	vfAssert("promotion:memory-within-max-size", h.memCost() <= 2)
+	zzAccounted(s, "promotion")
+}
